@@ -178,6 +178,23 @@ pub struct ExecPort {
     pub sender: SimPreconfSender,
 }
 
+impl ExecPort {
+    /// Non-generic entry points: the executor's generic code is instantiated once, here.
+    pub fn validate_block(
+        &self,
+        block: &Block,
+    ) -> ExecutorResult<UncommittedValidationResult<Changes>> {
+        self.exec.validate(block)
+    }
+
+    pub fn produce_once(
+        &self,
+        comp: Components<fuel_core_executor::executor::OnceTransactionsSource>,
+    ) -> ExecutorResult<UncommittedResult<Changes>> {
+        self.exec.produce_without_commit_with_source_direct_resolve(comp)
+    }
+}
+
 impl Validator for ExecPort {
     fn validate(&self, block: &Block) -> ExecutorResult<UncommittedValidationResult<Changes>> {
         if self.fail_next_validate.swap(false, Ordering::SeqCst) {
@@ -310,10 +327,15 @@ pub fn seal(secret: &SecretKey, block: &Block) -> SealedBlock {
     }
 }
 
-/// Full content of a database as sorted (column, key, value) triples.
+/// Full content of a database as sorted (column, key, value) triples. The metadata column is
+/// left out: its value serialises a `HashSet` (indexation availability) in hash order, which
+/// differs between processes and nodes without any difference in state.
 pub fn dump_on_chain(db: &OnChainDb) -> Vec<(u32, Vec<u8>, Vec<u8>)> {
     let mut out = Vec::new();
     for c in enum_all_columns() {
+        if c == Column::Metadata {
+            continue;
+        }
         for item in db.iter_store(c, None, None, IterDirection::Forward) {
             let (k, v) = item.expect("iteration");
             out.push((c.id(), k, v.to_vec()));
